@@ -97,6 +97,13 @@ let handle (w : string list) : string =
       "init>" ^ slist s_input outs0 ^ (if tr = [] then "" else "|" ^ String.concat "|" (List.map s_event tr))
       ^ "||" ^ slist s_res g.g_c.c_results ^ "||" ^ s_cst g.g_c.c_cur ^ "||" ^ s_hst g.g_s.hv_st ^ "||" ^ slist s_call g.g_s.hv_log
       ^ "||" ^ s_bool quiet ^ "||" ^ s_bool g.g_err
+  | ["api"; rel; items] ->
+      (* items: c<service> | x | r ; output: C<service> | R | X *)
+      let p_api t = if t = "x" then ApiClose else if t = "r" then ApiRequest (OpPut [])
+                    else ApiConnect (zi (String.sub t 1 (String.length t - 1))) in
+      let (c, acts) = api_run { o_sock = None; o_release = (rel = "1") } (plist p_api items) in
+      slist (function ActConnect s0 -> "C" ^ string_of_int (int_of_z s0) | ActRequest _ -> "R" | ActClose -> "X") acts
+      ^ "||" ^ (match c.o_sock with None -> "none" | Some s0 -> string_of_int (int_of_z s0))
   | _ -> "?unknown-command"
 
 let () =
